@@ -185,6 +185,15 @@ func c03RunShape(t *testing.T, rec *vfh.Rec, s *c03Shape, w *c03World, fail func
 				return nil, nil
 			}
 			return ab, func() bool { return ab.negative }
+		case "V4-negated-secret-and-randomiser":
+			// an issuance commitment to -s_a made with the negated shared randomiser: its response is
+			// -(r + c*s_a), the other holder's r + c*s_a (presentable in memory only)
+			cb, err := newAdvCredBuilder(kpB, new(big.Int).Neg(sa), nil)
+			if err != nil {
+				return nil, nil
+			}
+			cb.negSkR = true
+			return cb, func() bool { return false }
 		case "V2-extra-response-on-R0", "ctl-advU":
 			var claimed *big.Int
 			if variant == "V2-extra-response-on-R0" {
@@ -198,7 +207,7 @@ func c03RunShape(t *testing.T, rec *vfh.Rec, s *c03Shape, w *c03World, fail func
 		}
 		return nil, nil
 	}
-	for _, variant := range []string{"V1-disclose-difference-at-0", "V2-extra-response-on-R0", "V3-disclose-secret"} {
+	for _, variant := range []string{"V1-disclose-difference-at-0", "V2-extra-response-on-R0", "V3-disclose-secret", "V4-negated-secret-and-randomiser"} {
 		ab, neg := mk(variant)
 		if ab == nil {
 			rec.Class("adv-skipped/"+variant, 1)
